@@ -82,20 +82,18 @@ def check(ctx: Ctx) -> list[RuleResult]:
         r2.ok({"final_comparison": norm(rets[0].value)})
     else:
         r2.fail(f"{ex.short}:comparison", ex.loc(), f"_expired no longer returns `_fraction_expired >= HAS_EXPIRED`: {[norm(r.value) for r in rets]}")
-    fe = ex.nested.get("fraction_expired")
-    if fe is None:
-        raise AnalysisError("Message._expired.fraction_expired not found")
+    fe = ex.nested.get("fraction_expired") or ex  # the age/fraction arithmetic may be inlined into _expired itself
     grace = ctx.consts.get(M, "_TD_SECS_003")
     r2.instances += 1
     r2.nontrivial += 1
-    age = [n for n in own_nodes(fe.node) if isinstance(n, ast.BinOp) and isinstance(n.op, ast.Sub) and norm(n.right) == "_TD_SECS_003" and "self._gwy._dt_now() - self.dtm" in norm(n.left)]
+    age = [n for n in ast.walk(fe.node) if isinstance(n, ast.BinOp) and isinstance(n.op, ast.Sub) and norm(n.right) == "_TD_SECS_003" and "self._gwy._dt_now() - self.dtm" in norm(n.left)]
     if age and isinstance(grace, _dt.timedelta) and grace == _dt.timedelta(seconds=3):
         r2.ok({"age": norm(age[0]), "grace": str(grace)})
     else:
         r2.fail(f"{fe.short}:age", fe.loc(), f"the message age is no longer (now - dtm - 3 s) (grace folds to {grace!r})")
     r2.instances += 1
     r2.nontrivial += 1
-    divs = [n for n in own_nodes(fe.node) if isinstance(n, ast.BinOp) and isinstance(n.op, ast.Div) and norm(n.right) == "lifespan"]
+    divs = [n for n in ast.walk(fe.node) if isinstance(n, ast.BinOp) and isinstance(n.op, ast.Div) and "lifespan" in norm(n.right) and "age" in norm(n.left)]
     if divs:
         r2.ok({"fraction": norm(divs[0])})
     else:
